@@ -20,6 +20,7 @@ import DS.Model.Parsers
 import DS.Gen.Handlers
 import DS.Model.Lattice
 import DS.Model.Expand
+import DS.Model.CifRow
 /-!
 Line-protocol driver: one operation per input line, one canonical result line per operation.
 Used by the correspondence checks (harness/*.py).  No Mathlib import anywhere below this file.
@@ -297,6 +298,7 @@ def handlers : List (List String → Option String) :=
   , DS.Expand.expandHandle
   , DS.CifNum.cifnumHandle
   , DS.Column.columnHandle
+  , DS.CifRow.cifrowHandle
   ]
 
 def handle (ws : List String) : String :=
